@@ -165,6 +165,13 @@ func (s *SMS) HijackAuth(w http.ResponseWriter, r *http.Request, handled bool) (
 		return false, nil
 	}
 
+	// A code that was sent for another account's pending login must never
+	// complete this one: the rate limit in SendCodeToUser can leave the
+	// previous code in the session.
+	if prev, _ := authboss.GetSession(r, SessionSMSPendingPID); prev != user.GetPID() {
+		authboss.DelSession(w, SessionSMSSecret)
+	}
+
 	authboss.PutSession(w, SessionSMSPendingPID, user.GetPID())
 	err := s.SendCodeToUser(w, r, user.GetPID(), number)
 	if err != nil && err != errSMSRateLimit {
